@@ -117,7 +117,7 @@ _ALL = {
              'method lets Timeout escape (R2, R3); state matches the constructor (P1); the lookup path must not turn a '
              'vanished (replaced) value file into "key absent" (V1b - violated, known finding).',
              'Equivalence with OrderedDict over histories needs execution and is not decided.'),
-    'C13': P(['S1', 'S2', 'S3', 'S4', 'S5', 'S6', 'S7', 'S8', 'P3', ('I2', r'^(FanoutCache|no-store)')],
+    'C13': P(['S1', 'S2', 'S3', 'S4', 'S5', 'S6', 'S7', ('S8', r'^FanoutCache'), 'P3', ('I2', r'^(FanoutCache|no-store)')],
              'routing dataflow per method + purity allow-list of the hash + aggregate iteration shape',
              'Decides that every key-addressed FanoutCache method calls shards[hash(key) % count] with the key it '
              'hashed (S1); Disk.hash is a pure function of the database form of the key (S2) and respects database '
@@ -166,7 +166,7 @@ _ALL = {
              'released 5.6.3 reference (P3); a tested parameter is used (P4); connections are per thread and re-opened '
              'after fork/close (L6).',
              'Byte-level readability of pickles across Python versions is not decided.'),
-    'C19': P(['D1', 'D2', 'D3', 'D4', 'D5', 'D6', ('I2', r'^(DjangoCache|no-store)'), ('S6', r'djangocache'), ('R2', r'DjangoCache'), 'R3'],
+    'C19': P(['D1', 'D2', 'D3', 'D4', 'D5', 'D6', ('S8', r'^DjangoCache'), ('I2', r'^(DjangoCache|no-store)'), ('S6', r'djangocache'), ('R2', r'DjangoCache'), 'R3'],
              'key/timeout dataflow through the adapter + abstract evaluation of get_backend_timeout on 5 input classes',
              'Does NOT decide the full backend contract over histories. Decides: every key goes downstream as '
              'make_key(key, version=version) (D1); every timeout goes through get_backend_timeout, which maps the '
